@@ -213,6 +213,11 @@ func genBlockPlan(seed uint64, thorough bool) *Plan {
 	for c := 0; c < np; c++ {
 		g.client = 10 + c
 		var items []Item
+		if c == 0 && g.chance(4) {
+			// the destination of the blocking moves holds something that is not a
+			// list: a woken BLMOVE fails with WRONGTYPE and leaves the element
+			items = append(items, cmdItem(g.pick("SET", "SADD"), "dst", "x"))
+		}
 		n := 1 + g.r.IntN(4)
 		for i := 0; i < n; i++ {
 			k := keys[g.r.IntN(len(keys))]
